@@ -16,6 +16,34 @@ use std::io::Write;
 use tree_sitter::{Language, Node, Parser, Query, QueryCursor, QueryErrorKind, StreamingIterator, Tree};
 use tsv_harness::*;
 
+extern "C" {
+    // the function of lib/src/tree_cursor.c the query cursor itself asks for a node's field,
+    // sibling status and hidden supertype chain
+    fn ts_tree_cursor_current_status(
+        cursor: *const tree_sitter::ffi::TSTreeCursor,
+        field_id: *mut u16,
+        has_later_siblings: *mut bool,
+        has_later_named_siblings: *mut bool,
+        can_have_later_siblings_with_this_field: *mut bool,
+        supertypes: *mut u16,
+        supertype_count: *mut u32,
+    );
+}
+
+/// Names of the hidden supertype nodes between the cursor's node and its visible parent.
+fn supertypes_at(cursor: &tree_sitter::TreeCursor, lang: &Language) -> Vec<String> {
+    let mut field = 0u16;
+    let (mut a, mut b, mut c) = (false, false, false);
+    let mut sups = [0u16; 8];
+    let mut n = 8u32;
+    unsafe {
+        // TreeCursor is a newtype around ffi::TSTreeCursor
+        let raw = cursor as *const tree_sitter::TreeCursor as *const tree_sitter::ffi::TSTreeCursor;
+        ts_tree_cursor_current_status(raw, &mut field, &mut a, &mut b, &mut c, sups.as_mut_ptr(), &mut n);
+    }
+    sups[..(n as usize).min(8)].iter().filter_map(|s| lang.node_kind_for_id(*s).map(|x| x.to_string())).collect()
+}
+
 fn quote(s: &str) -> String {
     let mut o = String::from("\"");
     for ch in s.chars() {
@@ -38,6 +66,9 @@ struct QGen {
     anon_kinds: Vec<String>,
     fields: Vec<String>,
     quant_ok: bool,
+    sup_of: HashMap<usize, Vec<String>>,
+    lang: Language,
+    lang_supertypes: Vec<String>,
 }
 
 impl QGen {
@@ -64,7 +95,8 @@ impl QGen {
                 fields.push(n.to_string());
             }
         }
-        QGen { named_kinds, anon_kinds, fields, quant_ok: true }
+        let lang_supertypes: Vec<String> = lang.supertypes().iter().filter_map(|s| lang.node_kind_for_id(*s).map(|x| x.to_string())).collect();
+        QGen { named_kinds, anon_kinds, fields, quant_ok: true, sup_of: HashMap::new(), lang: lang.clone(), lang_supertypes }
     }
 
     fn capture(&self, rng: &mut Rng) -> String {
@@ -103,8 +135,17 @@ impl QGen {
     }
 
     fn pat_node(&self, rng: &mut Rng, node: &Node, depth: usize) -> Option<String> {
+        let sups = self.sup_of.get(&node.id()).cloned().unwrap_or_default();
         let mut s = if node.is_error() {
             "(ERROR".to_string()
+        } else if !sups.is_empty() && rng.chance(1, 3) {
+            // through a supertype: `(sup …)` or `(sup/kind …)`
+            let sup = rng.pick(&sups).clone();
+            if rng.chance(1, 2) { format!("({sup}") } else { format!("({sup}/{}", node.kind()) }
+        } else if !self.sup_of.is_empty() && rng.chance(1, 25) {
+            // a supertype the node does not go through (mostly no match / rejected subtype)
+            let any: Vec<&String> = self.sup_of.values().flatten().collect();
+            format!("({}/{}", rng.pick(&any), node.kind())
         } else if rng.chance(1, 14) {
             "(_".to_string()
         } else if rng.chance(1, 12) && !self.named_kinds.is_empty() {
@@ -494,6 +535,27 @@ fn gen_query(rng: &mut Rng, g: &mut QGen, tree: &Tree) -> Option<String> {
         return None;
     }
     g.quant_ok = !rng.chance(3, 5); // 60 % of the queries are quantifier-free
+    g.sup_of.clear();
+    if !g.lang_supertypes.is_empty() {
+        let mut c = tree.walk();
+        'outer: loop {
+            let sv = supertypes_at(&c, &g.lang);
+            if !sv.is_empty() {
+                g.sup_of.insert(c.node().id(), sv);
+            }
+            if c.goto_first_child() {
+                continue;
+            }
+            loop {
+                if c.goto_next_sibling() {
+                    break;
+                }
+                if !c.goto_parent() {
+                    break 'outer;
+                }
+            }
+        }
+    }
     match rng.below(10) {
         0 => {
             if let Some(q) = gen_negated_family(rng, g, &named) {
@@ -561,6 +623,15 @@ fn emit_case(out: &mut impl Write, cid: &str, lang_id: &str, lang: &Language, tr
     writeln!(out, "case {cid}").unwrap();
     writeln!(out, "haserror {}", if tree.root_node().has_error() { 1 } else { 0 }).unwrap();
     writeln!(out, "query {}", hex(qt.as_bytes())).unwrap();
+    {
+        let mut l = String::from("supertypes");
+        for s in lang.supertypes() {
+            if let Some(n) = lang.node_kind_for_id(*s) {
+                write!(l, " {}", hexs(n)).unwrap();
+            }
+        }
+        writeln!(out, "{l}").unwrap();
+    }
     // visible tree through a cursor walk
     let mut ids: HashMap<(usize, usize, usize, u16), usize> = HashMap::new();
     {
@@ -569,9 +640,11 @@ fn emit_case(out: &mut impl Write, cid: &str, lang_id: &str, lang: &Language, tr
         'outer: loop {
             let nd = c.node();
             ids.entry((nd.id(), nd.start_byte(), nd.end_byte(), nd.kind_id())).or_insert(n);
+            let sv = supertypes_at(&c, lang);
+            let svs = if sv.is_empty() { "-".to_string() } else { sv.iter().map(|x| hexs(x)).collect::<Vec<_>>().join(",") };
             writeln!(
                 out,
-                "n {} {} {} {} {} {} {} {} {} {}",
+                "n {} {} {} {} {} {} {} {} {} {} {}",
                 n,
                 nd.is_named() as u8,
                 nd.is_missing() as u8,
@@ -581,7 +654,8 @@ fn emit_case(out: &mut impl Write, cid: &str, lang_id: &str, lang: &Language, tr
                 nd.end_byte(),
                 nd.child_count(),
                 hexs(nd.kind()),
-                c.field_name().map(hexs).unwrap_or_else(|| "-".to_string())
+                c.field_name().map(hexs).unwrap_or_else(|| "-".to_string()),
+                svs
             )
             .unwrap();
             n += 1;
